@@ -124,7 +124,6 @@ def c12_runs(tier):
         if not q:
             runs += ex(q, 'pf_one', 2, ['a', 's'], 1, type=t, at='max', size=[4, 5], budget=400)
         runs += ex(q, 'pf_one', 1, ['a'], 2, waits=(1,), type=t, at='max', size=[4, 5], budget=200)
-    # sanitizer legs
     return runs
 
 
